@@ -675,7 +675,7 @@ func TestC19Known(t *testing.T) {
 			return c19KnownCases[rapid.IntRange(0, len(c19KnownCases)-1).Draw(t, "i")]
 		},
 		Run: func(tb rapid.TB, c c19Known, rec *vx.Case) {
-			rec.Class(c.Name)
+			rec.Class("%s", c.Name)
 			rec.NonTrivial()
 			switch {
 			case c.Arith != nil:
